@@ -132,6 +132,10 @@ pub struct Inner {
     pub actor_task: RefCell<HashMap<usize, usize>>,
     pub choices: RefCell<Vec<usize>>,
     pub cancelled: RefCell<Vec<usize>>,
+    /// timer being registered right now (actor, timer id): consumed by the next aux spawn
+    pub reg_timer: Cell<Option<(usize, usize)>>,
+    /// aux task id -> (actor, timer id)
+    pub timer_task: RefCell<HashMap<usize, (usize, usize)>>,
 }
 
 thread_local! {
@@ -195,9 +199,22 @@ impl Backend for Be {
         if let TaskKind::Actor(a) = k {
             self.0.actor_task.borrow_mut().insert(a, id);
         }
+        if let TaskKind::Aux(_) = k {
+            if let Some(at) = self.0.reg_timer.take() {
+                self.0.timer_task.borrow_mut().insert(id, at);
+            }
+        }
     }
-    fn sleep(&self, _kind: SleepKind, d: Duration) -> BoxFut {
-        Box::pin(self.0.sleep(d.as_millis() as u64))
+    fn sleep(&self, kind: SleepKind, d: Duration) -> BoxFut {
+        let ms = d.as_millis() as u64;
+        if kind == SleepKind::Sleep {
+            if let Some(id) = self.0.current.get() {
+                if let Some((a, t)) = self.0.timer_task.borrow().get(&id).copied() {
+                    emit(format!("tarm {} {} {}", a, t, self.0.now.get() + ms));
+                }
+            }
+        }
+        Box::pin(self.0.sleep(ms))
     }
 }
 
@@ -223,6 +240,8 @@ pub fn run(seed: u64, cfg: ExecCfg, root: impl FnOnce(&Rc<Inner>)) -> Outcome {
         actor_task: RefCell::new(HashMap::new()),
         choices: RefCell::new(Vec::new()),
         cancelled: RefCell::new(Vec::new()),
+        reg_timer: Cell::new(None),
+        timer_task: RefCell::new(HashMap::new()),
     });
     CUR.with(|c| *c.borrow_mut() = Some(inner.clone()));
     hannibal::verif::install(Rc::new(Be(inner.clone())));
@@ -367,6 +386,9 @@ pub fn run(seed: u64, cfg: ExecCfg, root: impl FnOnce(&Rc<Inner>)) -> Outcome {
             Ok(Poll::Ready(())) => {
                 if let TaskKind::Actor(a) = inner.tasks.borrow()[id].kind {
                     emit(format!("tdone {}", a));
+                }
+                if let Some((a, t)) = inner.timer_task.borrow().get(&id).copied() {
+                    emit(format!("tend {} {}", a, t));
                 }
                 drop(fut);
             }
